@@ -42,6 +42,20 @@ MinLen(st) ==
       [] st.k = "Bilinear" -> 2
       [] st.k = "Custom" -> st.min
 
+\* boundary condition of lane j (1-based, row-major over the trailing axes) in SplineRef form
+SideOf(el, k, v) ==
+    CASE k = "NotAKnot" -> [k |-> "NotAKnot", v |-> Q0]
+      [] k = "Natural" -> [k |-> "SecondDeriv", v |-> Q0]
+      [] k = "Clamped" -> [k |-> "FirstDeriv", v |-> Q0]
+      [] k = "FirstDeriv" -> [k |-> "FirstDeriv", v |-> QDecode(el, v)]
+      [] k = "SecondDeriv" -> [k |-> "SecondDeriv", v |-> QDecode(el, v)]
+
+LaneBc(st, el, j) ==
+    IF st.bc = "Periodic" THEN [per |-> TRUE, l |-> SideOf(el, "NotAKnot", ""), r |-> SideOf(el, "NotAKnot", "")]
+    ELSE IF st.bc = "Individual" THEN
+        LET row == st.rows[j] IN [per |-> FALSE, l |-> SideOf(el, row[2], row[3]), r |-> SideOf(el, row[4], row[5])]
+    ELSE [per |-> FALSE, l |-> SideOf(el, st.bc, ""), r |-> SideOf(el, st.bc, "")]
+
 (***************************************************************************)
 (* C10, 1-D.  inp = [rank, n, x (decoded), st, dshape, el, dv (payloads)]   *)
 (***************************************************************************)
